@@ -181,6 +181,10 @@ func (m *PublishMessage) Decode(src []byte) (int, error) {
 		//m.packetId = binary.BigEndian.Uint16(src[total:])
 		m.packetID = src[total : total+2]
 		total += 2
+	} else {
+		// a message object that held a QoS 1 or 2 packet before must not go on
+		// reporting that packet's identifier
+		m.packetID = nil
 	}
 
 	l := int(m.remlen) - (total - hn)
